@@ -520,7 +520,6 @@ func (e LinkEngine) Run(t *testing.T, ctx *kit.Ctx, sc *kit.Scenario[LinkConfig,
 	return res
 }
 
-
 // ---------------------------------------------------------------- real socket under the sender
 
 // realWire is a loopback TCP or Unix-stream connection: one end belongs to the repository's real transport, the
@@ -529,6 +528,9 @@ func (e LinkEngine) Run(t *testing.T, ctx *kit.Ctx, sc *kit.Scenario[LinkConfig,
 type realWire struct {
 	tcp     *face.UnicastTCPTransport
 	unix    *face.UnixStreamTransport
+	udp     *face.UnicastUDPTransport
+	udpPeer *net.UDPConn // the harness end of the UDP "link"
+	udpDst  *net.UDPAddr // the transport's socket
 	peer    net.Conn
 	buf     []byte
 	cleanup func()
@@ -586,6 +588,27 @@ func openRealWire(kind string) *realWire {
 		}
 		w.unix, w.peer = tr, peer
 		w.cleanup = func() { tr.Close(); peer.Close(); os.Remove(path) }
+	case "udp":
+		lo := net.ParseIP("127.0.0.1")
+		pc, err := net.ListenUDP("udp4", &net.UDPAddr{IP: lo})
+		if err != nil {
+			return nil
+		}
+		tmp, err := net.ListenUDP("udp4", &net.UDPAddr{IP: lo}) // a free port for the transport's end
+		if err != nil {
+			pc.Close()
+			return nil
+		}
+		lp := tmp.LocalAddr().(*net.UDPAddr).Port
+		tmp.Close()
+		tr, err := face.MakeUnicastUDPTransport(defn.MakeUDPFaceURI(4, "127.0.0.1", uint16(pc.LocalAddr().(*net.UDPAddr).Port)),
+			defn.MakeUDPFaceURI(4, "127.0.0.1", uint16(lp)), face.PersistencyPersistent)
+		if err != nil {
+			pc.Close()
+			return nil // the port was taken in the meantime
+		}
+		w.udp, w.udpPeer, w.udpDst = tr, pc, &net.UDPAddr{IP: lo, Port: lp}
+		w.cleanup = func() { tr.Close(); pc.Close() }
 	default:
 		return nil
 	}
